@@ -77,6 +77,9 @@ class Built:
 def build_timegrid(g):
     from eaopack.basic_classes import Timegrid
     form = g.get('date_form', 'timestamp')
+    if g.get('x_zone_in_dates') and g.get('tz'):
+        # the zone is carried by the dates only (no timezone argument): Timegrid.tz stays None, the time points are zone-aware
+        return Timegrid(pd.Timestamp(g['start'], tz=g['tz']), pd.Timestamp(g['end'], tz=g['tz']), freq=g['freq'], main_time_unit=g.get('unit', 'h'))
     return Timegrid(to_date(g['start'], form), to_date(g['end'], form), freq=g['freq'],
                     main_time_unit=g.get('unit', 'h'), timezone=g.get('tz'))
 
